@@ -273,6 +273,27 @@ func c18(c *Ctx) {
 	}
 	// enum agreement
 	c.c18Enums()
+	// sibling agreement of the decoder's call sites: the default id is robust.IdFromRaftIndex(<raft index>)
+	{
+		nmfb := c.P.Func("robust.NewMessageFromBytes")
+		n := 0
+		for _, fi := range c.P.AllFuncs {
+			for _, call := range callsIn(fi, func(fn *types.Func, _ *ast.CallExpr) bool { return nmfb != nil && fn == nmfb.Obj }) {
+				n++
+				ok := false
+				if len(call.Args) == 2 {
+					if ic, isCall := ast.Unparen(call.Args[1]).(*ast.CallExpr); isCall {
+						if fn := astx.Callee(fi.Info(), ic); fn != nil && isFunc(fn, "robust", "IdFromRaftIndex") {
+							ok = true
+						}
+					}
+				}
+				r.Check(ok, "C18.F1", fi.Name(), "default id is IdFromRaftIndex(raft index)", c.P.Pos(call.Pos()), "NewMessageFromBytes(data, robust.IdFromRaftIndex(index))",
+					"this reader decodes a message with a default id that is not robust.IdFromRaftIndex(index) like every other reader: with a non-zero message offset the same entry gets a different id here (output is not found/deleted, sessions are not found after a restore)")
+			}
+		}
+		r.Check(n >= 5, "C18.F1", "module", "decoder call sites enumerated", "-", itoa(n), "fewer NewMessageFromBytes call sites than expected")
+	}
 
 	// ---------- F2: every function that copies between raft.Log and pb.RaftLog
 	logFields := []string{"Index", "Term", "Type", "Data", "Extensions", "AppendedAt"}
